@@ -251,7 +251,16 @@ Message *Message::factory(const F8MetaCntx& ctx, const f8String& from, bool no_c
 #if defined FIX8_CODECTIMING
 	_codec_timings.start(sw_decode_time);
 #endif
-	msg->decode(from, hlen, 7, permissive_mode); // skip already decoded mandatory 8, 9, 35 and 10
+	const unsigned consumed(msg->decode(from, hlen, 7, permissive_mode)); // skip already decoded mandatory 8, 9, 35 and 10
+	if (!permissive_mode && consumed != from.size() - 7)
+	{
+		// strict mode: decoding stopped at a field that is not legal where it appears; nothing may be silently dropped
+		unsigned tv(0);
+		for (const char *ptr(from.data() + consumed), *eptr(from.data() + from.size()); ptr < eptr && *ptr >= '0' && *ptr <= '9'; ++ptr)
+			tv = tv * 10 + (*ptr - '0');
+		delete msg;
+		throw UnknownField(tv);
+	}
 #if defined FIX8_CODECTIMING
 	_codec_timings.stop(sw_decode_time);
 #endif
